@@ -179,6 +179,16 @@ def run(ctx):
                 reqs.append({"op": "replace", "s": info.lean_id, "doc": info.node(d), "from": f2, "to": t2,
                              "slice": info.slice(other)})
                 metas.append(("replace", info, d, (f2, t2, other), (st4, info.node(res) if st4 == "ok" else None)))
+                if f2 < t2 and rng.random() < 0.15:
+                    # a range that ends before it starts, both ends inside the document: refused with the replace error
+                    # (never a document, never an internal error), by the code and by the model alike
+                    st5, res5 = outcome(lambda: d.replace(t2, f2, other))
+                    ctx.count("replace-swapped:" + st5)
+                    if st5 != "failed":
+                        ctx.violation("replace-swapped", f"replacing a range that ends before it starts is not refused with the replace error: {st5} {str(res5)[:120]}",
+                                      {"schema": info.name, "doc": d.to_json(), "from": t2, "to": f2, "slice": other.to_json()})
+                    reqs.append({"op": "replace", "s": info.lean_id, "doc": info.node(d), "from": t2, "to": f2, "slice": info.slice(other)})
+                    metas.append(("replace", info, d, (t2, f2, other), (st5, None)))
     flush()
     return ctx.finish(
         rule="a case is (schema, document, range[, slice]) for slice / cut / re-insertion / replace with a slice cut "
